@@ -96,10 +96,10 @@ def main():
         trusted=['Lean 4.33 kernel', 'axioms: propext, Classical.choice, Quot.sound only',
                  'tools/translate/pybrace2lean.py (dumps the interpreter\'s \\w, \\d, isdecimal tables, the four regex parse trees, SSIZE_MAX, the digit limit, '
                  'the error classes; probes ~600 single fields)',
-                 'perl-brace: the scanner is PROVED to be the first match of the generated parse tree under the backtracking semantics Spec.BraceRe.bt '
-                 '(my model of sre for this fragment: ordered alternatives, greedy repeats); finditer + the two position tests are modelled by hand',
-                 'python-brace: the scanners are hand-written readings of _field_re / _simple_field_re / _format_spec_re (parse trees pinned: regex_pin) and '
-                 'Field.__init__ / add_argument / the type intersection are hand-modelled: tied by the pybrace-* streams and probes_pin',
+                 'all four scanners (perlbrace._field_re; pybrace._field_re, _simple_field_re, _format_spec_re) are PROVED to be the first match of the '
+                 'generated parse trees under the backtracking semantics Spec.BraceRe.bt (my model of sre for this fragment: ordered alternatives, greedy '
+                 'repeats, captures); finditer + the two position tests, _simple_field_re.findall(fmt) and Field.__init__ / add_argument / the type '
+                 'intersection are modelled by hand: tied by the pybrace-* / perlbrace-* streams and probes_pin',
                  'Spec.StrFormat is my model of CPython\'s MarkupIterator / field_name_split / AutoNumber / parse_internal_render_format_spec / '
                  'str, int, float __format__ (success or exception kind; values abstracted to int n / float / str; text and memory not modelled); it is compared '
                  f'with the running interpreter on every run (pybrace-cpyparse, pybrace-cpyformat): fidelity is by correspondence with CPython {sys.version.split()[0]} (64-bit) only',
@@ -112,18 +112,21 @@ EXPLANATION = (
     'Proved in Lean for ALL strings. perl-brace (full): perl_iff (accepted iff every { opens a {identifier} placeholder, identifier = [^\\W\\d]\\w* '
     'for the interpreter\'s tables), perl_names (arguments = exactly the set of those identifiers; the items spell the input), perl_error_own (only Error; '
     '_printable_prefix never fails), perl_regex (the scanner is the first match of the live parse tree of _field_re under backtracking semantics, end '
-    'position and group spans included), classes_pin. python-brace: brace_accept_parses (accepted => string.Formatter().parse succeeds), brace_reject '
+    'position and group spans included), classes_pin. python-brace: field_regex (scanLiteral / scanField / scanSimple are the first match of the live '
+    'trees of _field_re / _simple_field_re for every string and position, group spans included), spec_regex (likewise scanSpec for _format_spec_re), '
+    'brace_accept_parses (accepted => string.Formatter().parse succeeds), brace_reject '
     '(Python\'s parser rejects => rejected, with an own Error class), brace_error_own (only the module\'s own Error classes: asserts, int() ValueError, '
     '_printable_prefix AttributeError, the termination device unreachable), flat_formats_partial (flat fields, no field with "," + b/c/o/x/X or sign/# + c: '
     'str.format succeeds for EVERY argument object with a value of a reported type under every reported position/name; an int being a code point), '
+    'quirk_rejected (conversely, an accepted flat string with such a field cannot be formatted whatever the arguments: the restriction is exact), '
     'flat_formats_refuted + witness_accepted/witness_flat/witness_rejected ({:,x} is accepted with type int and str.format fails whatever the type: the '
     'formatting clause is false as stated; open findings accept:comma-with-bcoxX and accept:sign-or-alt-with-c, pinned by the repository\'s own tests). Pins: '
     'constants_pin, regex_pin, probes_pin (kernel evaluation of the models on ~620 probes). Test level only: "time linear in the length" for the '
     'implementation (timing stream; the model scanners are structurally recursive), the fidelity of Spec.StrFormat to the interpreter (oracle streams, '
     'CPython 3.12.1 64-bit) and of the hand-written python-brace model to the code (pybrace-* streams). Fixed in /repo and recorded: 07546e5 (exponential '
     'time on an unterminated format spec), 5d38fd1 (ValueError on {²}), a481125 (nested fields with braces in an index accepted). OUTSTANDING: the '
-    'unrestricted flat_formats is false (refuted); a kernel proof that the python-brace scanners are the first match of the pinned parse trees (done for '
-    'perl-brace only).')
+    'unrestricted flat_formats is false (refuted, open findings); that _simple_field_re.findall(fmt) lists the nested names the scan of the format group '
+    'collected is tied by correspondence only; time is test level.')
 
 if __name__ == '__main__':
     common.main_wrapper(main)
